@@ -981,7 +981,13 @@ def gen_C12(rng, tier):
         for form in DEC_FORMS_MIN[:3] if tier == 'quick' else DEC_FORMS_MIN:
             cases.append(Case(prog(['r1=dec.%s:%s' % (form, b), 'enc:r1', 'isid:r1']), cls='decode'))
     for r0 in special_fq(rng, 10 if tier == 'quick' else 200):
-        cases.append(Case(prog(['E=ell:%s' % h32(r0), 'enc:E', 'h=h2c:%s,%s' % (h32(r0), h32(rng.randrange(q))), 'enc:h']), cls='elligator'))
+        cases.append(Case(prog(['E=ell:%s' % h32(r0), 'enc:E', 'isid:E', 'h=h2c:%s,%s' % (h32(r0), h32(rng.randrange(q))), 'enc:h']), cls='elligator'))
+    # every observable both builds offer, on every kind of representative (incl. both forms of the identity, Z = 1
+    # non-canonical coset members, results of arithmetic)
+    pgb = ProgGen(rng, encs)
+    for E in pgb.base_elems():
+        cases.append(Case(prog(E[1] + ['enc:E', 'isid.is_identity:E', 'isid.eq_identity:E', 'f=redec:E', 'eq:E,f', 'n=neg:E', 's=add:E,n', 'isid:s', 'enc:s']),
+                          cls='representatives:' + E[0]))
     for _ in range(40 if tier == 'quick' else 600):
         st = random_program(rng, encs, 'min', rng.randrange(3, 25), mixforms=True)
         cases.append(Case(prog(st + ['enc:E', 'isid:E', 'eq:E,v0']), cls='random-program'))
